@@ -617,9 +617,20 @@ def SE_(sb, t):
     return SE(sb, t)
 
 
-def check_tail(ctx, led, om):
+def check_tail(ctx, led, om, own_tables=False):
+    """own_tables: the algorithm's shape instantiated with the code's own lookup and depth tables
+    (C14: monotonicity is then decided on those tables; their values are C02's matter)."""
     spec = ctx.vspec(4)
     lookup = lookup_ref(ctx)
+    if own_tables:
+        tabs = code_tables(ctx)
+        if tabs["lookup"] is not None and set(tabs["lookup"]) == set(lookup):
+            lookup = tabs["lookup"]
+        if tabs["depth"] is not None:
+            ok = all(set(tabs["depth"].get(g, {})) == set(spec["depth"][g]) for g in spec["depth"])
+            if ok and all(d.denominator == 1 and d > 0 for g in tabs["depth"].values() for d in g.values()):
+                spec = dict(spec)
+                spec["depth"] = dict((g, dict((l, int(d)) for l, d in tabs["depth"][g].items())) for g in tabs["depth"])
     # the reference lookup is used for the *shape* of the lower-macrovector tables; the values
     # themselves are compared by C02.lookup.  Use the code's own table when they agree.
     n = 0
@@ -795,3 +806,223 @@ def check_extract(ctx, led, om, thorough=False):
             "extract_value_metric(%r, %r) yields %r, the vector says %r" % ((k,) + (bad or (None, None, None))),
         )
     return n
+
+
+# ---------------------------------------------------------------------------------------------
+# C14: monotonicity across macrovector boundaries, decided on the reduced parameter space
+
+
+def code_tables(ctx):
+    """The code's own lookup, highest-severity vectors and depths (E2), in the specification's
+    layout; None for a table that is not in that layout (the C02 rules say what is wrong)."""
+    out = {"lookup": None, "max_vectors": None, "depth": None}
+    try:
+        t = ctx.ce.table("constants4", "CVSS_LOOKUP_GLOBAL", "C14.v4.cross")
+        out["lookup"] = dict((str(k), qof(v)) for k, v in t.items())
+    except (TypeError, AnalysisError):
+        pass
+    try:
+        mc = ctx.ce.table("constants4", "MAX_COMPOSED", "C14.v4.cross")
+        mv = {}
+        for eq in ("eq1", "eq2", "eq4", "eq5"):
+            mv[eq] = dict((str(l), [s for s in lst]) for l, lst in mc[eq].items())
+        mv["eq3eq6"] = {}
+        for l3, sub in mc["eq3"].items():
+            for l6, lst in sub.items():
+                mv["eq3eq6"][str(l3) + str(l6)] = list(lst)
+        out["max_vectors"] = mv
+    except (TypeError, KeyError, AttributeError, AnalysisError):
+        pass
+    try:
+        ms = ctx.ce.table("constants4", "MAX_SEVERITY", "C14.v4.cross")
+        dp = {}
+        for eq in ("eq1", "eq2", "eq4", "eq5"):
+            dp[eq] = dict((str(l), qof(d)) for l, d in ms[eq].items())
+        dp["eq3eq6"] = {}
+        for l3, sub in ms["eq3eq6"].items():
+            for l6, d in sub.items():
+                dp["eq3eq6"][str(l3) + str(l6)] = qof(d)
+        out["depth"] = dp
+    except (TypeError, KeyError, AttributeError, AnalysisError):
+        pass
+    return out
+
+
+def check_cross_monotone(ctx, led, rule="C14.v4.cross"):
+    """Single-metric severity steps that change the macrovector (or not): the score never drops.
+
+    Rests on the facts the caller has discharged: the score's value graph is the v4.0 algorithm
+    (tail), the digits are the specification's classifiers (eq), the search is a first fit over the
+    product of the per-class lists on all distances (search), all highest-severity vectors of a
+    class have the same level sum and every member is dominated by one (cross).  Then the score is a
+    function F of five per-group signatures (digit(s) of the group, level sum of the group's
+    effective values, "all impact metrics None"), and a step of one metric changes one signature.
+    F is tabulated on the *code's own* tables (lookup, highest-severity vectors, depths) with exact
+    rationals; every (signature step) x (signatures of the other groups) is compared."""
+    import math
+
+    spec = ctx.vspec(4)
+    tabs = code_tables(ctx)
+    where = "cvss/constants4.py"
+    if tabs["lookup"] is None or tabs["max_vectors"] is None or tabs["depth"] is None:
+        led.undecided(rule, "a scoring table of constants4 is not in the layout of the specification; the v4 step table was not built")
+        return 0
+    lookup, maxv, depth = tabs["lookup"], tabs["max_vectors"], tabs["depth"]
+    lv = dict((k, dict((a, Fraction(b)) for a, b in d.items())) for k, d in spec["levels"].items())
+    eqs, dom, groups = spec["eq"], spec["effective_domain"], spec["eq_groups"]
+    zero_ks = set(spec["zero_if_all_N"])
+    order = spec["severity_order"]
+    G = ["eq1", "eq2", "eq3eq6", "eq4", "eq5"]
+
+    def digit(eq, env):
+        return [l for l, ex in sorted(eqs[eq]["levels"].items()) if spec_eval(ex, env)][0]
+
+    S = {}
+    for g in G:
+        ks = groups[g]
+        S[g] = {}
+        for vals in itertools.product(*[dom[k] for k in ks]):
+            env = dict(zip(ks, vals))
+            d = digit("eq3", env) + digit("eq6", env) if g == "eq3eq6" else digit(g, env)
+            L = sum(lv[k][env[k]] for k in ks if k in lv)
+            z = all(env[k] == "N" for k in ks if k in zero_ks)
+            S[g][vals] = (d, L, z)
+    # level sum of the highest-severity vectors per class (equal within a class: C02.cross.sums)
+    Lmax = {}
+    for g in G:
+        if g == "eq5":
+            continue
+        for d in set(s[0] for s in S[g].values()):
+            lst = maxv.get(g, {}).get(d)
+            if not lst:
+                led.undecided(rule, "class %s=%s has no highest-severity vector in MAX_COMPOSED; the v4 step table was not built" % (g, d))
+                return 0
+            sums = set()
+            for m in lst:
+                mm = parse_maxvec(m)
+                try:
+                    sums.add(sum(lv[k][mm[k]] for k in groups[g]))
+                except KeyError:
+                    led.undecided(rule, "highest-severity vector %r of class %s=%s lacks a metric of its group" % (m, g, d))
+                    return 0
+            if len(sums) != 1:
+                led.undecided(rule, "highest-severity vectors of class %s=%s have different level sums: the score depends on which one the search selects" % (g, d))
+                return 0
+            Lmax[g, d] = sums.pop()
+    nl = spec["next_lower_joint"]
+    tenth = Fraction(1, 10)
+
+    def F(sig):
+        (d1, L1, z1), (d2, L2, z2), (d36, L36, z36), (d4, L4, z4), (d5, L5, z5) = sig
+        if z36 and z4:
+            return Fraction(0)
+        digs = [d1, d2, d36[0], d4, d5, d36[1]]
+        value = lookup.get("".join(digs))
+        if value is None:
+            return None
+
+        def low(i):
+            d = list(digs)
+            d[i] = str(int(d[i]) + 1)
+            return lookup.get("".join(d))
+
+        lows = {"eq1": low(0), "eq2": low(1), "eq4": low(3), "eq5": low(4)}
+        c = [low({"eq3": 2, "eq6": 5}[r]) for r in nl.get(d36, [])]
+        c = [x for x in c if x is not None]
+        lows["eq3eq6"] = max(c) if c else None
+        Ls = {"eq1": L1, "eq2": L2, "eq3eq6": L36, "eq4": L4}
+        ds = {"eq1": d1, "eq2": d2, "eq3eq6": d36, "eq4": d4}
+        n = 0
+        tot = Fraction(0)
+        for g in G:
+            if lows[g] is None or value - lows[g] < 0:
+                continue
+            n += 1
+            if g == "eq5":
+                continue
+            dep = depth.get(g, {}).get(ds[g])
+            if not dep:
+                return None
+            tot += (value - lows[g]) * (Ls[g] - Lmax[g, ds[g]]) / (dep * tenth)
+        mean = tot / n if n else Fraction(0)
+        v = min(Fraction(10), max(Fraction(0), value - mean))
+        return Fraction(math.floor(v * 10 + Fraction(1, 2)), 10)
+
+    sigsets = dict((g, sorted(set(S[g].values()))) for g in G)
+    Ftab = {}
+    for sig in itertools.product(*[sigsets[g] for g in G]):
+        Ftab[sig] = F(sig)
+    if any(x is None for x in Ftab.values()):
+        led.undecided(rule, "a feasible macrovector or a depth is missing from the code's tables; the v4 step table was not built")
+        return 0
+
+    def vector(assign):
+        base = []
+        mod = []
+        for k in spec["mandatory"]:
+            v = assign.get(k)
+            if k in ("SI", "SA") and v == "S":
+                base.append("%s:H" % k)
+                mod.append("M%s:S" % k)
+            else:
+                base.append("%s:%s" % (k, v))
+        opt = ["%s:%s" % (k, assign[k]) for k in ("E", "CR", "IR", "AR")]
+        return "CVSS:4.0/" + "/".join(base + opt + mod)
+
+    rep = dict((g, {}) for g in G)
+    for g in G:
+        for vals, s in S[g].items():
+            rep[g].setdefault(s, vals)
+    n_cmp = 0
+    n_steps = 0
+    worst = {}
+    for gi, g in enumerate(G):
+        ks = groups[g]
+        pairs = {}
+        for vals, s in S[g].items():
+            for i, k in enumerate(ks):
+                o = order[k]
+                r = o.index(vals[i])
+                if r + 1 < len(o):
+                    v2 = list(vals)
+                    v2[i] = o[r + 1]
+                    v2 = tuple(v2)
+                    n_steps += 1
+                    pairs.setdefault((s, S[g][v2], k), (vals, v2))
+        others = [sigsets[h] for h in G if h != g]
+        for (s, s2, k), (vals, v2) in sorted(pairs.items(), key=lambda x: repr(x[0])):
+            if s == s2:
+                continue
+            for rest in itertools.product(*others):
+                a = list(rest)
+                a.insert(gi, s)
+                b = list(rest)
+                b.insert(gi, s2)
+                n_cmp += 1
+                fa, fb = Ftab[tuple(a)], Ftab[tuple(b)]
+                if fb < fa and (k not in worst or fa - fb > worst[k][0]):
+                    assign = {}
+                    for h, sg in zip(G, a):
+                        assign.update(zip(groups[h], rep[h][sg]))
+                    assign.update(zip(ks, vals))
+                    assign2 = dict(assign)
+                    assign2.update(zip(ks, v2))
+                    worst[k] = (fa - fb, vector(assign), fa, vector(assign2), fb, vals[ks.index(k)], v2[ks.index(k)])
+    led.count("v4_step_table_signatures", len(Ftab))
+    led.count("v4_step_table_comparisons", n_cmp)
+    for k in sorted(order):
+        ck = "CVSS4 score under a severity step of %s" % k
+        if k in worst:
+            d, va, fa, vb, fb, x, y = worst[k]
+            led.violation(
+                rule,
+                ck,
+                where,
+                "raising %s from %s to the more severe %s lowers the v4.0 score: %s scores %s, %s scores %s "
+                "(algorithm evaluated exactly on the code's lookup, highest-severity and depth tables)" % (k, x, y, va, float(fa), vb, float(fb)),
+                expected="score(%s) >= %s" % (vb, float(fa)),
+                found=str(float(fb)),
+            )
+        else:
+            led.ok(rule, ck, where, "no step of %s lowers the score on any of the %d signature tuples" % (k, len(Ftab)))
+    return n_cmp
